@@ -2,7 +2,7 @@
     Statements only (closed by [exact]); proofs are in Proofs/C03.v and Proofs/C03b.v; the model is
     Model/Outbound.v. [trace ops] is the concatenated output stream of running the operation list
     [ops] (ANY list, any interleaving of payment ids) from the empty [OutboundPayments]. *)
-Require Import LdkV.Prim.U64 LdkV.Gen.ConstsC03 LdkV.Model.Outbound LdkV.Proofs.C03 LdkV.Proofs.C03b.
+Require Import LdkV.Prim.U64 LdkV.Gen.ConstsC03 LdkV.Model.Outbound LdkV.Proofs.C03 LdkV.Proofs.C03b LdkV.Proofs.C03c.
 Open Scope Z_scope.
 
 (** The per-id scanner accepts every run: no creation while an entry is present; no terminal event,
@@ -119,6 +119,35 @@ Theorem C03_restart_claim_wins : forall st id ops a h b f c,
   List.concat (snd (run st ops)) = a ++ h :: b ++ f :: c ->
   is_claimhit id h = true -> is_failed id f = true -> existsb (is_created id) b = true.
 Proof. exact pending_snapshot_claim_wins. Qed.
+
+(** A path whose send returned Ok or MonitorUpdateInProgress (the HTLC is committed, it goes out
+    when the monitor update completes) keeps its part: every session priv that
+    find_route_and_send_payment / send_payment hands out for such a path is a pending part of the
+    payment when the call returns, through every nested retry of the paths that failed to send
+    (the three Rust sites — pay_route_internal's classification, push_path_failed_evs_and_scids,
+    handle_pay_route_err's filter — agree that MonitorUpdateInProgress is "in flight"). *)
+Theorem C03_inflight_kept : forall id answers e c fv mf sp i0 h0 a f r,
+  In (ONew sp i0 h0 a f r) (snd (fst (frs answers id e c fv mf))) -> unsent r = false ->
+  exists p', fst (fst (frs answers id e c fv mf)) = Some p' /\ In sp (parts_of p').
+Proof. exact frs_inflight_kept. Qed.
+
+Theorem C03_inflight_kept_first_attempt : forall id hash retry amt mf answers c sp i0 h0 a f r,
+  In (ONew sp i0 h0 a f r) (snd (send_t id hash retry amt mf answers c None)) -> unsent r = false ->
+  exists p', fst (send_t id hash retry amt mf answers c None) = Some p' /\ In sp (parts_of p').
+Proof. exact send_inflight_kept. Qed.
+
+(** No PaymentFailed while a part is pending: abandon_payment, the retain pass and the retry loop
+    of check_retry_payments (whatever the router answers) and the timer tick never emit
+    PaymentFailed for an entry that has a pending part, and fail_htlc only when the part it fails
+    is the last one. *)
+Theorem C03_no_failed_while_part_pending : forall id p y c,
+  In y (parts_of p) ->
+  (forall reason, has_failed (snd (abandon_t id reason c (Some p))) = false) /\
+  has_failed (snd (retain_t id c (Some p))) = false /\
+  (forall q, has_failed (snd (tick_t q id c (Some p))) = false) /\
+  (forall answers, y < c -> has_failed (snd (retry_t answers id c (Some p))) = false) /\
+  (forall sp amt fee perm probe, sp <> y -> has_failed (snd (fail_t id sp amt fee perm probe c (Some p))) = false).
+Proof. exact no_failed_while_pending. Qed.
 
 (** Which operation can emit which kind of output (PaymentSent only from a claim, PaymentFailed
     only from send/retry/fail/abandon/tick, creation only from add/await/send/startup, ...). *)
